@@ -4,9 +4,13 @@
 // Instantiated from /verif/tools/gen_typed_contracts.py for batch/v1.Job.
 package job
 
+/*@ immutable batch/v1.Job.ObjectMeta
+@*/
+
 /*@ theory jobfilters
 ;; theory filters k8s
 ;; uses meta/v1.ObjectMeta
+(declare-fun |F!batch/v1.Job!ObjectMeta| (V) |S!meta/v1.ObjectMeta|)
 (declare-fun |F!batch/v1.Job!Spec.Selector| (V) V)
 (declare-fun |F!batch/v1.Job!Spec.Template.ObjectMeta| (V) |S!meta/v1.ObjectMeta|)
 (define-fun src-sel ((s V)) V (|F!batch/v1.Job!Spec.Selector| s))
@@ -38,6 +42,56 @@ package job
         (exists ((j Int)) (and (<= 0 j) (< j (slen {sources})) (srcSelects (select (sarr {sources}) j) o)))))
 @*/
 
+/*@ theory jobcanon
+;; theory jobfilters filtereq sorting
+; assumed: GetNamespace() / GetName() of an API object return its ObjectMeta.Namespace / ObjectMeta.Name fields
+(assert (forall ((o V)) (! (and (= (|meta/v1.ObjectMeta.Namespace| (|F!batch/v1.Job!ObjectMeta| o)) (obj-ns o))
+                                (= (|meta/v1.ObjectMeta.Name| (|F!batch/v1.Job!ObjectMeta| o)) (obj-name o))) :pattern ((|F!batch/v1.Job!ObjectMeta| o)))))
+; C17: the child PodsFilter builds for one source: And(NSName(namespace/""), selector or, lacking one, template labels)
+(define-fun wlChild ((f V) (s V)) Bool
+  (and (not (= f vnil)) (= (dyntype f) |ty!filter.andFilter|)
+       (let ((k (|unbox!filter.andFilter| f)))
+         (and (= (slen k) 2)
+              (let ((n (select (sarr k) 0)) (l (select (sarr k) 1)))
+                (and (not (= n vnil)) (= (dyntype n) |ty!filter.nsNameFilter|)
+                     (let ((x (|unbox!filter.nsNameFilter| n)))
+                       (and (forall ((kk NSN)) (not (select (|fdom!S!nsname.NSName!Bool| (|filter.nsNameFilter.fullset| x)) kk)))
+                            (= (slen (|filter.nsNameFilter.partials| x)) 1)
+                            (= (select (sarr (|filter.nsNameFilter.partials| x)) 0) (|mk!nsname.NSName| (obj-ns s) |str!|))))
+                     (not (= l vnil)) (= (dyntype l) |ty!*filter.selectorFilter|)
+                     (= (|F!filter.selectorFilter!selector| l)
+                        (ite (not (= (src-sel s) vnil)) (sel-from-ls (src-sel s)) (sel-from-set (src-tlabels s))))))))))
+@*/
+
+/*@ func types/job.PodsFilter#canonical
+  props C17
+  theory jobcanon
+  note a second view of PodsFilter for C17's order-independence clause: its children are built, in order, from THE sorted arrangement of the sources (sort.Slice leaves the slice sorted by the less function, see PodsFilter$1; with pairwise distinct namespace/name that arrangement is unique)
+  requires [sources-valid] (forall ((j Int)) (=> (and (<= 0 j) (< j (slen {sources})))
+        (and (not (= (select (sarr {sources}) j) vnil)) (not (= (obj-ns (select (sarr {sources}) j)) |str!|)))))
+  loop 1 inv [range] (and (<= 0 (+ {rangeindex} 1)) (<= (+ {rangeindex} 1) (slen {srcs})) (= (slen {srcs}) (slen {sources})))
+  loop 1 inv [srcs-valid] (forall ((j Int)) (=> (and (<= 0 j) (< j (slen {srcs})))
+        (and (not (= (select (sarr {srcs}) j) vnil)) (not (= (obj-ns (select (sarr {srcs}) j)) |str!|)))))
+  loop 1 inv [one-child-per-source] (= (slen {filters}) (+ {rangeindex} 1))
+  at call(Slice).after assert [sorted-by-namespace-then-name] (sortedByKey {srcs})
+  at call(Slice).after assert [same-elements-as-the-arguments] (sameElements {srcs} {sources})
+  at call(Slice).after assert [distinct-keys-preserved] (=> (distinctKeys {sources}) (distinctKeys {srcs}))
+  at call(Slice).after assert [same-elements-as-the-canonical-order] (sameElements {srcs} (sortedSources {sources}))
+  at call(Slice).after apply SORT-sorted-sequences-with-the-same-distinct-keyed-elements-agree (a {srcs}) (b (sortedSources {sources}))
+  at call(Slice).after assert [is-the-canonical-order] (=> (distinctKeys {sources}) (forall ((q Int)) (=> (and (<= 0 q) (< q (slen {srcs})))
+        (= (select (sarr {srcs}) q) (select (sarr (sortedSources {sources})) q)))))
+  loop 1 inv [sources-in-canonical-order] (=> (distinctKeys {sources}) (forall ((q Int)) (=> (and (<= 0 q) (< q (slen {srcs})))
+        (= (select (sarr {srcs}) q) (select (sarr (sortedSources {sources})) q)))))
+  loop 1 inv [children-built-from-the-sorted-sources] (forall ((q Int)) (=> (and (<= 0 q) (< q (slen {filters})))
+        (wlChild (select (sarr {filters}) q) (select (sarr {srcs}) q))))
+  at call(And).after assert [opt:child-of-this-source] (wlChild $result {svc})
+  ensures [canonical-children] (=> (distinctKeys {sources}) (let ((kids (|unbox!filter.orFilter| result)))
+        (and (= (slen kids) (slen {sources}))
+             (forall ((q Int)) (=> (and (<= 0 q) (< q (slen kids))) (wlChild (select (sarr kids) q) (select (sarr (sortedSources {sources})) q)))))))
+  ensures [is-or] (and (not (= result vnil)) (= (dyntype result) |ty!filter.orFilter|))
+@*/
+
+
 /*@ func types/job.PodsFilter$1
   props C17
   note the less function handed to sort.Slice (which calls it with indices in range): sources are ordered by namespace, then name - the order that makes the filter independent of the order of the arguments
@@ -45,4 +99,22 @@ package job
   requires [sources-non-nil] (and (not (= (select (sarr {srcs}) {i}) vnil)) (not (= (select (sarr {srcs}) {j}) vnil)))
   ensures [orders-by-namespace-then-name] (= result (or (strlt {srcs[i].ObjectMeta.Namespace} {srcs[j].ObjectMeta.Namespace})
         (and (= {srcs[i].ObjectMeta.Namespace} {srcs[j].ObjectMeta.Namespace}) (strlt {srcs[i].ObjectMeta.Name} {srcs[j].ObjectMeta.Name}))))
+@*/
+
+/*@ lemma C17-order-independent-job-PodsFilter
+  props C17
+  theory jobcanon
+  note PodsFilter compares equal whatever the order of its sources (pairwise distinct namespace/name): both calls build their children from the one sorted arrangement of the sources
+  var xs : (Slice V)
+  var ys : (Slice V)
+  assume (and (>= (slen xs) 0) (= (slen xs) (slen ys)))
+  assume [same-sources-in-any-order] (sameElements xs ys)
+  assume [distinct-namespace-name] (and (distinctKeys xs) (distinctKeys ys))
+  call r1 := types/job.PodsFilter#canonical xs
+  call r2 := types/job.PodsFilter#canonical ys
+  apply SORT-sorted-sequences-with-the-same-distinct-keyed-elements-agree (a (sortedSources xs)) (b (sortedSources ys))
+  call eq := filter.FiltersEqual r1 r2
+  prove [same-canonical-order] (forall ((q Int)) (=> (and (<= 0 q) (< q (slen xs))) (= (select (sarr (sortedSources xs)) q) (select (sarr (sortedSources ys)) q))))
+  prove [built-the-same-way] (bs r1 r2)
+  prove [compare-equal] eq
 @*/
